@@ -76,14 +76,34 @@ type Fakes struct {
 type Validator struct {
 	mu     sync.Mutex
 	Reject error
+	Inner  func(netmap.NodeInfo) error // optional: real validators
 	Calls  int
+	Last   netmap.NodeInfo
 }
 
-func (v *Validator) Verify(netmap.NodeInfo) error {
+func (v *Validator) Verify(ni netmap.NodeInfo) error {
 	v.mu.Lock()
 	defer v.mu.Unlock()
 	v.Calls++
+	v.Last = ni
+	if v.Inner != nil {
+		return v.Inner(ni)
+	}
 	return v.Reject
+}
+
+// Set scripts the validator.
+func (v *Validator) Set(reject error, inner func(netmap.NodeInfo) error) {
+	v.mu.Lock()
+	v.Reject, v.Inner, v.Calls = reject, inner, 0
+	v.mu.Unlock()
+}
+
+// NCalls returns the number of Verify calls since Set.
+func (v *Validator) NCalls() int {
+	v.mu.Lock()
+	defer v.mu.Unlock()
+	return v.Calls
 }
 
 type EpochTimer struct {
@@ -175,6 +195,9 @@ type Env struct {
 	Settlement *settlement.Processor
 
 	Signers MainTxSigners
+
+	// LastLogs are the warn/error log lines of the last handled event (filled by Dropped).
+	LastLogs []string
 }
 
 // Options of NewEnv.
@@ -333,10 +356,13 @@ func (e *Env) WaitIdleTimeout(d time.Duration) bool {
 // could not hand its task over and the event was dropped.
 func (e *Env) Dropped() bool {
 	n := 0
+	e.LastLogs = e.LastLogs[:0]
 	for _, l := range e.Logs.TakeAll() {
 		if strings.Contains(l.Message, "pool drained") {
 			n++
+			continue
 		}
+		e.LastLogs = append(e.LastLogs, fmt.Sprintf("%s %v", l.Message, l.ContextMap()))
 	}
 	return n > 0
 }
